@@ -148,6 +148,12 @@ func checkRouter(h *History) {
 		h.S.Fail(startFaultProperty(h.RP.StartFault.Kind), "bad-config-accepted", "start-up fault %q at %d was accepted: router started", h.RP.StartFault.Kind, h.RP.StartFault.Pos)
 	}
 	vs := buildViews(h)
+	if h.P.Focus == "C17" && h.P.Arm == "pair" {
+		// upstreams that share a server: only the authentication oracle applies
+		checkC17pair(h, vs)
+		checkC18router(h)
+		return
+	}
 	uses := tokenUses(h)
 	checkC03(h, vs, uses)
 	checkContent(h, vs) // C02 C04 C09
